@@ -63,6 +63,7 @@ Backtrack == /\ pc = "inner" /\ dfs # <<>>
              /\ UNCHANGED <<E, disc, time, roots>>
 Next == (\E s \in Nodes : StartRoot(s)) \/ (\E w \in Nodes : Advance(w)) \/ Backtrack
 Spec == Init /\ [][Next]_vars
+FairSpec == Spec /\ WF_vars(Next)
 Done == pc = "outer" /\ roots = {}
 \* ---- declarative reference
 RECURSIVE ReachFrom(_,_)
@@ -75,4 +76,6 @@ Exact == Done => /\ {SeqSet(emitted[i]) : i \in 1..Len(emitted)} = SCCsRef
                  /\ \A i, j \in 1..Len(emitted) : i # j => SeqSet(emitted[i]) \cap SeqSet(emitted[j]) = {}
 \* emitted components are always genuine SCCs, even before termination
 Partial == \A i \in 1..Len(emitted) : SeqSet(emitted[i]) \in SCCsRef
+\* the routine terminates under every schedule (liveness, weak fairness of the loop body)
+Terminates == <>Done
 ====
